@@ -185,6 +185,24 @@ def run(facts, res):
                 for (bi, st, v) in status_writes(cb):
                     if v == "Pending" and status_guard(cb, bi, facts) == "Blocked":
                         reset_sites.append(s)
+        # A4d: the reset applies to *every* Blocked block: the Blocked->Pending write is guarded by the block's status only
+        for s in cg.sites[rf.path]:
+            for cb in s.closures:
+                for (bi, st, v) in status_writes(cb):
+                    if v != "Pending" or status_guard(cb, bi, facts) != "Blocked":
+                        continue
+                    extra = []
+                    for l in lits_of(cb, bi, facts):
+                        about_status = (l.kind == "variant" and l.adt == STATUS) or \
+                            (l.kind in ("call", "cmp") and any(status_variant(x) for x in walk(l.term))) or \
+                            (l.kind == "variant" and l.variants and l.variants <= {"Ok", "Some", "Continue"})
+                        if not about_status:
+                            extra.append(repr(l))
+                    res.instance("A4", "refresh: the Blocked->Pending reset depends on the block's status only: %s" % (not extra), cb.loc(st.line))
+                    if extra:
+                        res.violation("A4", "refresh|reset-under-extra-condition",
+                                      "refresh resets a Blocked block to Pending only under the additional condition %s: a block whose missing dependency "
+                                      "arrived without satisfying that condition (e.g. a parent block that ships no pack) stays held back" % extra[0], cb.loc(st.line))
         marks = [s for s in cg.sites[rf.path] if s.targets and any(cg.reaches(t, ready_fns[0]) if ready_fns else False for t in s.targets)
                  and not any(cb for cb in s.closures)]
         marks = [s for s in cg.sites[rf.path] if s.callee is not None and s.callee.name in (R.name("mark_pass"), R.name("marker"))]
@@ -193,7 +211,7 @@ def run(facts, res):
         whole = False
         for r in reset_sites:
             recv = arg_term(rf, r.term, 0, 30)
-            names = [callee_name(c) for c in walk(recv) if c[0] == "call"]
+            names = [callee_name(c) for c in walk(recv, False) if c[0] == "call"]
             if not (set(names) & {"filter", "take", "skip", "step_by", "take_while", "skip_while"}) and \
                     any(x[0] == "field" and x[2] == "deltas" for x in walk(recv)):
                 whole = True
